@@ -29,8 +29,9 @@ type Opts struct {
 	Events     [2]int // per source
 	Failures   bool   // failing sends (outKind 2)
 	Split      bool
-	Gaps       bool   // idle gaps inside feeders (time-outs flush held runs)
-	DiscardCol bool   // an action BEFORE the holding column may discard
+	Gaps       bool // idle gaps inside feeders (time-outs flush held runs)
+	DiscardCol bool // an action BEFORE the holding column may discard
+	TwoHolders bool // two holding columns (e.g. k8s multiline followed by join)
 }
 
 type Rng interface {
@@ -52,6 +53,11 @@ func GenCase(r Rng, o Opts) hx.Sx {
 		if o.DiscardCol && nAct >= 2 {
 			holdCol = r.Range(1, nAct-1)
 		}
+	}
+	holdCol2 := -1
+	if o.TwoHolders && nAct >= 2 {
+		holdCol = r.Intn(nAct - 1)
+		holdCol2 = r.Range(holdCol+1, nAct-1)
 	}
 	outKind := pick(r, o.OutKinds)
 	capacity := r.Range(2, 24)
@@ -79,7 +85,7 @@ func GenCase(r Rng, o Opts) hx.Sx {
 			var sb strings.Builder
 			for a := 0; a < nAct; a++ {
 				c := o.Ops[r.Intn(len(o.Ops))]
-				if a == holdCol {
+				if a == holdCol || a == holdCol2 {
 					c = "hccpp"[r.Intn(5)]
 				} else if c == 'h' || c == 'c' {
 					c = 'p'
@@ -160,11 +166,12 @@ func RunJobs(jobs []*Job, par int) {
 
 // Standard families shared by the pipeline-level properties.
 var (
-	FamBasic = Opts{Procs: []int{1, 2, 4, 8}, Actions: [2]int{0, 3}, Ops: "ppppd", OutKinds: []int{0, 1, 1}, Sources: [2]int{1, 3}, Streams: [2]int{1, 3}, Events: [2]int{3, 40}}
-	FamHold  = Opts{Procs: []int{1, 2, 4, 8}, Actions: [2]int{1, 3}, Ops: "pppd", HoldCol: true, OutKinds: []int{0, 1, 1}, Sources: [2]int{1, 3}, Streams: [2]int{1, 3}, Events: [2]int{3, 30}, Gaps: true}
-	FamSplit = Opts{Procs: []int{1, 2, 4}, Actions: [2]int{1, 3}, Ops: "pppd", HoldCol: true, Split: true, OutKinds: []int{0, 1}, Sources: [2]int{1, 2}, Streams: [2]int{1, 2}, Events: [2]int{3, 20}, Gaps: true}
+	FamBasic             = Opts{Procs: []int{1, 2, 4, 8}, Actions: [2]int{0, 3}, Ops: "ppppd", OutKinds: []int{0, 1, 1}, Sources: [2]int{1, 3}, Streams: [2]int{1, 3}, Events: [2]int{3, 40}}
+	FamHold              = Opts{Procs: []int{1, 2, 4, 8}, Actions: [2]int{1, 3}, Ops: "pppd", HoldCol: true, OutKinds: []int{0, 1, 1}, Sources: [2]int{1, 3}, Streams: [2]int{1, 3}, Events: [2]int{3, 30}, Gaps: true}
+	FamSplit             = Opts{Procs: []int{1, 2, 4}, Actions: [2]int{1, 3}, Ops: "pppd", HoldCol: true, Split: true, OutKinds: []int{0, 1}, Sources: [2]int{1, 2}, Streams: [2]int{1, 2}, Events: [2]int{3, 20}, Gaps: true}
 	FamDiscardBeforeHold = Opts{Procs: []int{1, 2, 4}, Actions: [2]int{2, 3}, Ops: "ppd", HoldCol: true, DiscardCol: true, OutKinds: []int{0, 1}, Sources: [2]int{1, 2}, Streams: [2]int{1, 2}, Events: [2]int{3, 20}, Gaps: true}
-	FamRetry = Opts{Procs: []int{1, 2, 4}, Actions: [2]int{0, 2}, Ops: "pppd", OutKinds: []int{2}, Failures: true, Sources: [2]int{1, 2}, Streams: [2]int{1, 2}, Events: [2]int{4, 30}}
-	FamDeadQ = Opts{Procs: []int{1, 2, 4}, Actions: [2]int{0, 2}, Ops: "pppd", OutKinds: []int{2}, Failures: true, DeadQ: true, Sources: [2]int{1, 2}, Streams: [2]int{1, 2}, Events: [2]int{4, 30}}
-	FamSpread = Opts{Procs: []int{2, 4, 8}, Actions: [2]int{0, 2}, Ops: "pppd", OutKinds: []int{0, 1}, Spread: true, Sources: [2]int{2, 4}, Streams: [2]int{1, 1}, Events: [2]int{10, 40}}
+	FamTwoHolders        = Opts{Procs: []int{1, 2, 4}, Actions: [2]int{2, 3}, Ops: "ppp", HoldCol: true, TwoHolders: true, OutKinds: []int{0, 1}, Sources: [2]int{1, 2}, Streams: [2]int{1, 2}, Events: [2]int{4, 25}, Gaps: true}
+	FamRetry             = Opts{Procs: []int{1, 2, 4}, Actions: [2]int{0, 2}, Ops: "pppd", OutKinds: []int{2}, Failures: true, Sources: [2]int{1, 2}, Streams: [2]int{1, 2}, Events: [2]int{4, 30}}
+	FamDeadQ             = Opts{Procs: []int{1, 2, 4}, Actions: [2]int{0, 2}, Ops: "pppd", OutKinds: []int{2}, Failures: true, DeadQ: true, Sources: [2]int{1, 2}, Streams: [2]int{1, 2}, Events: [2]int{4, 30}}
+	FamSpread            = Opts{Procs: []int{2, 4, 8}, Actions: [2]int{0, 2}, Ops: "pppd", OutKinds: []int{0, 1}, Spread: true, Sources: [2]int{2, 4}, Streams: [2]int{1, 1}, Events: [2]int{10, 40}}
 )
